@@ -1384,6 +1384,8 @@ class PlainQuantity(Generic[MagnitudeT], PrettyIPython, SharedRegistryObject):
     @check_implemented
     def compare(self, other, op):
         if not isinstance(other, PlainQuantity):
+            # raises ValueError for a unit that belongs to another registry
+            self._check(other)
             if self.dimensionless:
                 return op(
                     self._convert_magnitude_not_inplace(self.UnitsContainer()), other
